@@ -115,5 +115,46 @@ FIXED = [
 ]
 
 # patterns of defects that have since been repaired in the repository (see FIXED): no longer known findings
+FINDINGS += [
+    dict(
+        id="C01-google-returns-without-args-section-not-split",
+        property="C01",
+        pattern=dict(check=RT, style="google", n_params=0, entry="return", field={"in": ["doc", "typ"]}),
+        what="Google style, an interface without parameters: the Returns section ('Returns:\\n  int:\\n   the result') is read back as one description "
+        "('  int:   the result'), the type is lost (the type/description split of the return entry only happens on the way out of an Args section)",
+        site="cdd/shared/docstring_parsers.py:_scan_phase_numpydoc_and_google (the return entry is only cut into type and description in the branch "
+        "that leaves the parameter section; when the docstring starts at 'Returns:' the lines are stacked as they are)",
+        example="{'params': {}, 'returns': {'return_type': {'typ': 'int', 'doc': 'the result'}}}, docstring_format='google' (the emitter half of this - "
+        "'Returns:  int:' on one line - was repaired in fff760c; the NumPy style round-trips since then)",
+    ),
+    dict(
+        id="C01-numpydoc-return-without-type-line",
+        property="C01",
+        pattern=dict(check=RT, style="numpydoc", n_params=0, entry="return", emit_types=False),
+        what="NumPy style, return entry emitted without its type line (emit_types=False), no parameters: the indented description is read back as the type "
+        "(same root as C01-numpydoc-without-types-drops-names: the NumPy emitter writes entries without the line that carries them)",
+        site="cdd/shared/docstring_utils.py:emit_param_str (numpydoc branch) / cdd/shared/docstring_parsers.py:_return_parse_phase_numpydoc_and_google",
+        example="{'params': {}, 'returns': {'return_type': {'typ': 'int', 'doc': 'the result'}}}, docstring_format='numpydoc', emit_types=False -> "
+        "'Returns\\n-------\\n    the result' -> typ '    the result'",
+    ),
+    dict(
+        id="C01-numpydoc-description-only-return",
+        property="C01",
+        pattern=dict(check=RT, style="numpydoc", partial_return="doconly"),
+        what="NumPy style, a return entry that has a description but no type: emitted as a bare indented line under 'Returns/-------'; read back as the type "
+        "(no parameters) or, after a parameter section, as two parameters named 'Returns' and '-------' and no return entry",
+        site="as above",
+        example="{'params': {'alpha': {'typ': 'int', 'doc': 'the value'}}, 'returns': {'return_type': {'doc': 'the result'}}}, docstring_format='numpydoc'",
+    ),
+    dict(
+        id="C01-google-type-only-return",
+        property="C01",
+        pattern=dict(check=RT, style="google", partial_return="typonly"),
+        what="Google style, a return entry that has a type but no description: 'Returns:\\n  int:' is read back as the description 'int:' without a type; "
+        "with emit_types=False an empty 'Returns:' section is still emitted and read back as an (empty) return entry",
+        site="cdd/shared/docstring_parsers.py:_return_parse_phase_numpydoc_and_google / cdd/docstring/emit.py",
+        example="{'params': {'alpha': {'typ': 'int', 'doc': 'the value'}}, 'returns': {'return_type': {'typ': 'int'}}}, docstring_format='google'",
+    ),
+]
 FIXED_IDS = ['C01-double-quote-in-string-default-not-escaped', 'C01-empty-string-default-leaves-prose', 'C01-empty-string-default-lost', 'C01-google-multiline-description-continuation-unindented', 'C01-string-default-cut-at-full-stop']
 FINDINGS = [f for f in FINDINGS if f["id"] not in FIXED_IDS]
